@@ -109,6 +109,132 @@ def rsPartitionPoint {α} (pred : α → Bool) (xs : List α) : Nat :=
     | some x => if pred x then base + 1 else base
     | none => base
 
+/-! ### `BufRead::lines`, `str::from_utf8`, `str::trim` -/
+
+/-- UTF-8 well-formedness (RFC 3629: no overlong forms, no surrogates, at most U+10FFFF), as `str::from_utf8` checks it -/
+def rsUtf8Valid : List Nat → Bool
+  | [] => true
+  | a :: r =>
+    if a < 128 then rsUtf8Valid r
+    else match r with
+      | b :: r2 =>
+        if 194 ≤ a ∧ a ≤ 223 then (128 ≤ b && b ≤ 191) && rsUtf8Valid r2
+        else match r2 with
+          | c :: r3 =>
+            if 224 ≤ a ∧ a ≤ 239 then
+              ((if a = 224 then 160 ≤ b && b ≤ 191 else if a = 237 then 128 ≤ b && b ≤ 159 else 128 ≤ b && b ≤ 191)
+                && (128 ≤ c && c ≤ 191)) && rsUtf8Valid r3
+            else match r3 with
+              | d :: r4 =>
+                if 240 ≤ a ∧ a ≤ 244 then
+                  ((if a = 240 then 144 ≤ b && b ≤ 191 else if a = 244 then 128 ≤ b && b ≤ 143 else 128 ≤ b && b ≤ 191)
+                    && (128 ≤ c && c ≤ 191) && (128 ≤ d && d ≤ 191)) && rsUtf8Valid r4
+                else false
+              | [] => false
+          | [] => false
+      | [] => false
+
+/-- `str::from_utf8(bytes)`; the `Utf8Error` is reported in the `io` class (it has no class of its own in `Err`) -/
+def rsFromUtf8 (bytes : List Nat) : Res (List Nat) := if rsUtf8Valid bytes then .ok bytes else .error .io
+
+/-- the line splitting of `BufRead::lines`: pieces end at `\n` (dropped, with one preceding `\r`); a final piece
+without `\n` is a line unless it is empty -/
+def rsLinesAux : List Nat → List Nat → List (List Nat)
+  | cur, [] => if cur.isEmpty then [] else [cur.reverse]
+  | cur, b :: r =>
+    if b = 10 then (let l := cur.reverse; if l.getLast? = some 13 then l.dropLast else l) :: rsLinesAux [] r
+    else rsLinesAux (b :: cur) r
+
+/-- `BufReader::new(bytes).lines()`: a line that is not valid UTF-8 is an `io::Error` (InvalidData) -/
+def rsLines (bytes : List Nat) : List (Res (List Nat)) :=
+  (rsLinesAux [] bytes).map fun l => if rsUtf8Valid l then .ok l else .error .io
+
+/-- `char::is_whitespace` on UTF-8 bytes: length of the White_Space character a string starts with (0: none) -/
+def rsWsLen : List Nat → Nat
+  | a :: b :: c :: _ =>
+    if (9 ≤ a && a ≤ 13) || a = 32 then 1
+    else if a = 194 && (b = 133 || b = 160) then 2
+    else if (a = 225 && b = 154 && c = 128) || (a = 226 && b = 128 && ((128 ≤ c && c ≤ 138) || c = 168 || c = 169 || c = 175))
+        || (a = 226 && b = 129 && c = 159) || (a = 227 && b = 128 && c = 128) then 3
+    else 0
+  | [a, b] => if (9 ≤ a && a ≤ 13) || a = 32 then 1 else if a = 194 && (b = 133 || b = 160) then 2 else 0
+  | [a] => if (9 ≤ a && a ≤ 13) || a = 32 then 1 else 0
+  | [] => 0
+
+/-- the same for the character a string ends with, on the reversed string -/
+def rsWsLenRev : List Nat → Nat
+  | a :: b :: c :: _ =>
+    if (9 ≤ a && a ≤ 13) || a = 32 then 1
+    else if b = 194 && (a = 133 || a = 160) then 2
+    else if (c = 225 && b = 154 && a = 128) || (c = 226 && b = 128 && ((128 ≤ a && a ≤ 138) || a = 168 || a = 169 || a = 175))
+        || (c = 226 && b = 129 && a = 159) || (c = 227 && b = 128 && a = 128) then 3
+    else 0
+  | [a, b] => if (9 ≤ a && a ≤ 13) || a = 32 then 1 else if b = 194 && (a = 133 || a = 160) then 2 else 0
+  | [a] => if (9 ≤ a && a ≤ 13) || a = 32 then 1 else 0
+  | [] => 0
+
+def rsTrimStartFuel : Nat → List Nat → List Nat
+  | 0, s => s
+  | n + 1, s => if rsWsLen s = 0 then s else rsTrimStartFuel n (s.drop (rsWsLen s))
+
+def rsTrimEndFuel : Nat → List Nat → List Nat
+  | 0, r => r
+  | n + 1, r => if rsWsLenRev r = 0 then r else rsTrimEndFuel n (r.drop (rsWsLenRev r))
+
+/-- `str::trim` -/
+def rsTrim (s : List Nat) : List Nat :=
+  let t := rsTrimStartFuel s.length s
+  (rsTrimEndFuel t.length t.reverse).reverse
+
+/-- `s.chars()` on the bytes of a `&str` (valid UTF-8 by Rust's invariant): the code points.  On byte sequences that
+are not valid UTF-8 the result is unspecified (lead bytes decide the length, missing bytes read as 0). -/
+def rsChars : List Nat → List Nat
+  | [] => []
+  | b :: bs =>
+    if b < 128 then b :: rsChars bs
+    else if b < 224 then ((b % 32) * 64 + (bs.headD 0) % 64) :: rsChars (bs.drop 1)
+    else if b < 240 then ((b % 16) * 4096 + ((bs.headD 0) % 64) * 64 + (bs.getD 1 0) % 64) :: rsChars (bs.drop 2)
+    else ((b % 8) * 262144 + ((bs.headD 0) % 64) * 4096 + ((bs.getD 1 0) % 64) * 64 + (bs.getD 2 0) % 64) :: rsChars (bs.drop 3)
+termination_by bs => bs.length
+decreasing_by all_goals simp only [List.length_drop, List.length_cons] <;> omega
+
+/-- `char::len_utf8` -/
+def rsLenUtf8 (c : Nat) : Nat := if c < 128 then 1 else if c < 2048 then 2 else if c < 65536 then 3 else 4
+/-- `char::len_utf16` -/
+def rsLenUtf16 (c : Nat) : Nat := if c < 65536 then 1 else 2
+
+/-- `s.is_char_boundary(i)`: the start, the end, or a byte that is not a continuation byte -/
+def rsIsCharBoundary (s : List Nat) (i : Nat) : Bool :=
+  i == 0 || i == s.length || (match s[i]? with | some b => b < 128 || 192 ≤ b | none => false)
+
+/-- `s.get(a..b)` -/
+def rsStrGet (s : List Nat) (a b : Nat) : Option (List Nat) :=
+  if a ≤ b ∧ b ≤ s.length ∧ rsIsCharBoundary s a ∧ rsIsCharBoundary s b then some ((s.drop a).take (b - a)) else none
+
+/-- little-endian value of a byte list -/
+def rsLe : List Nat → Nat
+  | [] => 0
+  | b :: bs => b + 256 * rsLe bs
+
+/-- `bytes.pread_with::<T>(off, scroll::LE)` for a packed struct `T` of `n` `u32` fields: scroll refuses an offset at
+or past the end (`BadOffset`) and a read that does not fit (`TooBig`); both are `Error::Scroll` -/
+def rsPreadU32s (bytes : List Nat) (off n : Nat) : Res (List Nat) :=
+  if off < bytes.length ∧ off + 4 * n ≤ bytes.length then
+    .ok ((List.range n).map fun i => rsLe ((bytes.drop (off + 4 * i)).take 4))
+  else .error .scroll
+
+/-- `bytes.pread_with::<&[u8]>(off, len)`: the same two refusals (in particular `off = bytes.len()` is refused even
+for `len = 0`) -/
+def rsPreadBytes (bytes : List Nat) (off len : Nat) : Res (List Nat) :=
+  if off < bytes.length ∧ off + len ≤ bytes.length then .ok ((bytes.drop off).take len) else .error .scroll
+
+/-- `Result::ok()`: `Err` to `None`; a panic or divergence inside the computation is not an `Err` value -/
+def rsOk {α} : Res α → Res (Option α)
+  | .ok v => .ok (some v)
+  | .error .panic => .error .panic
+  | .error .diverge => .error .diverge
+  | .error _ => .ok none
+
 /-- `bytes.view_bits::<Lsb0>()`: bit `8*i + j` is bit `j` of byte `i` -/
 def rsViewBits : List Nat → List Bool
   | [] => []
@@ -170,6 +296,29 @@ def rsInsertByKey {α} (key : α → Nat) (x : α) : List α → List α
 def rsSortByKey {α} (key : α → Nat) (xs : List α) : List α :=
   xs.foldl (fun acc x => rsInsertByKey key x acc) []
 
+/-- insertion into a list sorted by a pair-valued `key`, after all elements with a smaller or equal key (stable) -/
+def rsInsertByKeyP {α} (key : α → Nat × Nat) (x : α) : List α → List α
+  | [] => [x]
+  | y :: ys =>
+    if decide ((key x).1 < (key y).1 ∨ ((key x).1 = (key y).1 ∧ (key x).2 < (key y).2)) then x :: y :: ys
+    else y :: rsInsertByKeyP key x ys
+
+/-- `v.sort_by_key(key)` / `v.sort_unstable_by_key(key)` with a `(u32, u32)` key, as a STABLE sort (for the unstable
+one this is the trusted-base assumption of DESIGN.md section 4: elements with equal keys keep their order) -/
+def rsSortByKeyP {α} (key : α → Nat × Nat) (xs : List α) : List α :=
+  xs.foldl (fun acc x => rsInsertByKeyP key x acc) []
+
+/-- `*map.entry(k).or_insert(v)` on a map kept as an association list in insertion order: the value stored under `k`
+(inserting `v` when absent) and the map afterwards -/
+def rsEntryOrInsert {κ ν} [DecidableEq κ] (m : List (κ × ν)) (k : κ) (v : ν) : ν × List (κ × ν) :=
+  match m.find? (fun p => decide (p.1 = k)) with
+  | some p => (p.2, m)
+  | none => (v, m ++ [(k, v)])
+
+/-- `s.strip_suffix(p)` -/
+def rsStripSuffix (p s : List Nat) : Option (List Nat) :=
+  if p.length ≤ s.length ∧ s.drop (s.length - p.length) = p then some (s.take (s.length - p.length)) else none
+
 /-- lexicographic `<` on pairs, the `Ord` of `(u32, u32)` -/
 def ltPair (a b : Nat × Nat) : Bool := decide (a.1 < b.1 ∨ (a.1 = b.1 ∧ a.2 < b.2))
 
@@ -177,6 +326,12 @@ def ltPair (a b : Nat × Nat) : Bool := decide (a.1 < b.1 ∨ (a.1 = b.1 ∧ a.2
 inductive Exit (ρ σ : Type) where
   | done (s : σ)   -- the loop ended (exhausted or `break`), final values of the mutated variables
   | ret (v : ρ)    -- `return v` inside the loop
+
+/-- the same for a loop whose body can also `break 'label` out of the loop that directly encloses it -/
+inductive ExitB (ρ σ : Type) where
+  | done (s : σ)
+  | ret (v : ρ)
+  | brk (s : σ)    -- `break 'label` of the directly enclosing loop, with this loop's variables
 
 /-- `slice.binary_search_by_key(key, f)` as std implements it (library/core/src/slice/mod.rs,
 `binary_search_by`): `size` halves, `base` moves right while `f(base + half) ≤ key`; the
